@@ -56,6 +56,32 @@ let obs_saveproj img =
      | Panic _ -> "panic"
      | Fuel -> "hang")
 
+(* ---- flash images (descriptor + regions): Model/ExtractFlash.v ---- *)
+let flash_parses img =
+  match flash_layout img with
+  | Ok t -> (match bios_tree dec u2s nvar depth t with Ok _ -> `Ok | Err _ -> `Err | Panic _ -> `Panic | Fuel -> `Fuel)
+  | Err _ -> `Err | Panic _ -> `Panic | Fuel -> `Fuel
+
+let obs_fxpaths img =
+  match flash_parses img with
+  | `Err -> "err" | `Panic -> "panic" | `Fuel -> "hang"
+  | `Ok ->
+    (match flash_extract_paths dec u2s nvar depth img with
+     | Ok ps ->
+       let ps = List.map (fun p -> string_of_bytes (render_path p)) ps in
+       let sorted = List.sort_uniq compare ps in
+       Printf.sprintf "ok n=%x w=%x %s" (List.length sorted) (List.length ps) (String.concat " " sorted)
+     | Err _ -> "err-extract" | Panic _ -> "panic" | Fuel -> "hang")
+
+let obs_fdirsave img =
+  match flash_parses img with
+  | `Err -> "err" | `Panic -> "panic" | `Fuel -> "hang"
+  | `Ok ->
+    (match flash_dir_save dec enc u2s s2u nvar mangle3 depth img with
+     | Ok b -> "ok " ^ hex_of_bytes b
+     | Err e -> if int_of_z e = 30 then "err-load" else "err-asm"
+     | Panic _ -> "panic" | Fuel -> "hang")
+
 let eval fn args : string option =
   table_miss := false; ucs_inexact := false;
   match fn, args with
@@ -64,7 +90,15 @@ let eval fn args : string option =
     Some (match guid_parse (bytes_of_hex t) with Some g -> "ok " ^ hex_of_bytes g | None -> "err")
   | _ ->
   match args with
-  | img :: _ when has_flash_sig img -> None
+  | img :: _ when has_flash_sig img ->
+    let r = match fn, args with
+      | "xpaths", [img] -> Some (obs_fxpaths (bytes_of_hex img))
+      | "dirsave", [img] -> Some (obs_fdirsave (bytes_of_hex img))
+      | _ -> None in
+    (match r with
+     | Some s when !table_miss -> Some ("codec-table-miss " ^ s)
+     | Some _ when !ucs_inexact -> None
+     | x -> x)
   | _ ->
     let r = match fn, args with
       | "xpaths", [img] -> Some (obs_xpaths (bytes_of_hex img))
